@@ -49,8 +49,10 @@ IMPORT_KINDS = {
 }
 
 LOOK = ['skip_dec', 'skip_body', 'xfail',
-        {'s': 'pass', 'w': [['o', '0 0 0\n', False]]},
-        {'s': 'pass', 'w': [['e', '0 0 0\n', False]]},
+        # one spelling per channel (all parse as three integers), so that a
+        # spoofed header can be traced to the channel it came through
+        {'s': 'pass', 'w': [['o', '00 0 0\n', False]]},
+        {'s': 'pass', 'w': [['e', '0 00 0\n', False]]},
         {'s': 'pass', 'w': [['fd2', 'noise from a test\n', False]]},
         {'s': 'pass', 'w': [['fd2', '0 0 0\n', False]]},
         {'s': 'pass', 'w': [['fd2', '1 2\n1 2 x\n', False]]},
@@ -356,8 +358,9 @@ def run_case(case):
         # the known finding is about writes to the real file descriptor 2; a
         # header look-alike that a test wrote to sys.stdout / sys.stderr must
         # never get there
-        via = {w[0] for s_ in sc if isinstance(s_, dict) for w in s_.get('w', [])
-               if ow._triple(w[1].split('\n')[0]) is not None}
+        chan = {w[1].split('\n')[0].strip().encode(): w[0] for s_ in sc if isinstance(s_, dict)
+                for w in s_.get('w', []) if ow._triple(w[1].split('\n')[0]) is not None}
+        via = {chan.get(ln, 'other') for c in res.children for ln in ow.spoof_lines(c['stderr'])}
         sig['spoof_via'] = 'fd2' if via == {'fd2'} else 'stream:' + ','.join(sorted(via))
     child_fault_effective = False
     if cf and cf[1] == 'late':
